@@ -9,7 +9,7 @@ use self::asm::AsmSource;
 use self::command::{Command, CommandReader, Label, Location, MemoryLocation};
 use crate::air::AsmLine;
 use crate::output::{Condition, Output};
-use crate::runtime::{RunState, HALT_ADDRESS, USER_MEMORY_END};
+use crate::runtime::{RunState, USER_MEMORY_END};
 use crate::symbol::with_symbol_table;
 use crate::{dprintln, features};
 
@@ -177,7 +177,7 @@ impl Debugger {
                 );
                 self.status = Status::WaitForAction;
             }
-            Ordering::Greater if state.pc() != HALT_ADDRESS => {
+            Ordering::Greater => {
                 dprintln!(
                     Alternate,
                     Error,
